@@ -162,7 +162,7 @@ def exec_history(job):
             a = op["act"]
             if a == "SetPlatform":
                 e["plat"] = op["plat"]
-                acl.platform = op["plat"]
+                acl.platform = op.get("plat_spelled", op["plat"])      # documented aliases of the platform name
             elif a == "SetPortNr":
                 e["flag"] = op["flag"]
                 acl.port_nr = op["flag"]
@@ -394,11 +394,14 @@ def rand_op(rng, plat_now, weights):
     op = dict(act=a)
     if a == "SetPlatform":
         op["plat"] = rng.choice(["ios", "nxos"])
+        op["plat_spelled"] = rng.choice({"ios": ["ios", "ios", "cisco_ios"], "nxos": ["nxos", "nxos", "cnx", "cisco_nxos"]}[op["plat"]])
     elif a in ("SetPortNr", "SetProtocolNr"):
         op["flag"] = rng.random() < 0.5
     elif a == "Resequence":
         # refused calls here are refused BEFORE anything is renumbered (C10 owns the overflow half-way case)
         op["s"], op["d"] = rng.choice([(10, 10), (0, 0), (1, 1), (100, 5), (2 ** 32 - 200, 1), (7, 0), (2 ** 32, 1), (20, 20), (-1, 1)])
+        if rng.random() < 0.35:      # small starts / steps: new numbers collide with numbers other entries carried before
+            op["s"], op["d"] = rng.randint(1, 12), rng.randint(1, 5)
     elif a == "Group":
         op["prefix"] = rng.choice(["= ", "= ", "== ", "=", ""])
     elif a == "Permute":
